@@ -6,12 +6,20 @@
                     TYPE_BCD_PLUS / TYPE_6BIT_ASCII (import)
   pyipmi/fru.py     CUSTOM_FIELD_END, TYPE_OEM_PICMG, PICMG_RECORD_ID_MTCA_POWER_MODULE_CAPABILITY
                     (import); the `len(data) < N` guards of the record classes and the header
-                    length (AST)
+                    length (AST); the test of FruDataMultiRecord.create_from_record_id, the
+                    `self.length < N` guards of the PICMG record classes, the validation of the
+                    info-area length byte in CommonInfoArea._from_data and Fru._read_fru_area (AST)
 
 Fails closed: any shape outside this small grammar raises TieBroken.
-`shape()` additionally reports which of the two known forms `_unpack6bitascii` has
-('strict' = every group must have 3 bytes, as shipped; 'partial' = guarded by len(d))
-and whether the BCD+ branch converts `self.raw` before `.decode`.
+`extract()` additionally reports which of the two known forms `_unpack6bitascii` has
+('strict' = every group must have 3 bytes, as shipped; 'partial' = guarded by len(d)),
+whether the BCD+ branch converts `self.raw` before `.decode`, and for fru.py
+  'dispatchForm'  'type-only' (as shipped: `data[0] == TYPE_OEM_PICMG`) | 'mfg-id' (`... and len(data) >= N
+                  and data[2] >= M and (data[5] | data[6] << 8 | data[7] << 16) == PICMG_MANUFACTURER_ID`)
+  'areaLenForm'   'lax' (as shipped: checksum over data[:length] straight away) | 'checked'
+                  (`if self.length == 0 or len(data) < self.length: raise DecodingError`)
+  'devLenForm'    'lax' (as shipped) | 'checked' (`if count == 0: raise DecodingError` in _read_fru_area)
+each of them is compared with a probe of the running code by props/c15.py.
 """
 import ast
 import os
@@ -204,6 +212,168 @@ def _min_len(tree, cls):
     raise TieBroken('%s._from_data: length guard not found' % cls)
 
 
+def _is_name(node, name):
+    return isinstance(node, ast.Name) and node.id == name
+
+
+def _data_at(node, k):
+    """`data[k]`"""
+    return isinstance(node, ast.Subscript) and _is_name(node.value, 'data') \
+        and isinstance(node.slice, ast.Constant) and node.slice.value == k
+
+
+def _len_data(node):
+    return isinstance(node, ast.Call) and _is_name(node.func, 'len') and len(node.args) == 1 \
+        and _is_name(node.args[0], 'data')
+
+
+def _self_attr(node, attr):
+    return isinstance(node, ast.Attribute) and _is_name(node.value, 'self') and node.attr == attr
+
+
+def _raises_decoding_error(body):
+    if len(body) != 1 or not isinstance(body[0], ast.Raise):
+        return False
+    e = body[0].exc
+    return isinstance(e, ast.Call) and _is_name(e.func, 'DecodingError')
+
+
+def _cmp(node, op):
+    return isinstance(node, ast.Compare) and len(node.ops) == 1 and isinstance(node.ops[0], op)
+
+
+def _dispatch(tree):
+    """FruDataMultiRecord.create_from_record_id -> ('type-only', None, None) | ('mfg-id', N, M)"""
+    fn = _func(tree, 'create_from_record_id', 'FruDataMultiRecord')
+    body = [n for n in fn.body if not (isinstance(n, ast.Expr) and isinstance(n.value, ast.Constant))]
+    if len(body) != 1 or not isinstance(body[0], ast.If) or len(body[0].orelse) != 1:
+        raise TieBroken('create_from_record_id is not a single if/else')
+    st = body[0]
+
+    def ret_call(stmts, cls, fn_name=None):
+        if len(stmts) != 1 or not isinstance(stmts[0], ast.Return) or not isinstance(stmts[0].value, ast.Call):
+            return False
+        f = stmts[0].value.func
+        args = stmts[0].value.args
+        if len(args) != 1 or not _is_name(args[0], 'data'):
+            return False
+        if fn_name is None:
+            return _is_name(f, cls)
+        return isinstance(f, ast.Attribute) and f.attr == fn_name and _is_name(f.value, cls)
+    if not ret_call(st.body, 'FruPicmgRecord', 'create_from_record_id') or not ret_call(st.orelse, 'FruDataUnknown'):
+        raise TieBroken('create_from_record_id: branches are not FruPicmgRecord.create_from_record_id(data) / '
+                        'FruDataUnknown(data)')
+
+    def is_type_test(t):
+        return _cmp(t, ast.Eq) and _data_at(t.left, 0) and isinstance(t.comparators[0], ast.Attribute) \
+            and t.comparators[0].attr == 'TYPE_OEM_PICMG'
+    t = st.test
+    if is_type_test(t):
+        return 'type-only', None, None
+    if isinstance(t, ast.BoolOp) and isinstance(t.op, ast.And) and len(t.values) == 4 and is_type_test(t.values[0]):
+        a, b, c = t.values[1:]
+        if _cmp(a, ast.GtE) and _len_data(a.left) and _cmp(b, ast.GtE) and _data_at(b.left, 2) and _cmp(c, ast.Eq):
+            m = c.left      # data[5] | data[6] << 8 | data[7] << 16
+            ok = (isinstance(m, ast.BinOp) and isinstance(m.op, ast.BitOr)
+                  and isinstance(m.left, ast.BinOp) and isinstance(m.left.op, ast.BitOr)
+                  and _data_at(m.left.left, 5)
+                  and isinstance(m.left.right, ast.BinOp) and isinstance(m.left.right.op, ast.LShift)
+                  and _data_at(m.left.right.left, 6) and _int(m.left.right.right) == 8
+                  and isinstance(m.right, ast.BinOp) and isinstance(m.right.op, ast.LShift)
+                  and _data_at(m.right.left, 7) and _int(m.right.right) == 16)
+            rhs = c.comparators[0]
+            if ok and isinstance(rhs, ast.Attribute) and rhs.attr == 'PICMG_MANUFACTURER_ID':
+                return 'mfg-id', _int(a.comparators[0]), _int(b.comparators[0])
+    raise TieBroken('create_from_record_id: test is neither `data[0] == TYPE_OEM_PICMG` nor the repaired '
+                    '`... and len(data) >= N and data[2] >= M and (data[5] | data[6] << 8 | data[7] << 16) == '
+                    'PICMG_MANUFACTURER_ID`')
+
+
+def _own_len_guard(tree, cls):
+    """`if self.length < K: raise DecodingError(...)` directly in cls._from_data -> K | None; it has to
+    stand right behind the call of the base class's _from_data"""
+    fn = _func(tree, '_from_data', cls)
+    found = None
+    for i, n in enumerate(fn.body):
+        if isinstance(n, ast.If) and _cmp(n.test, ast.Lt) and _self_attr(n.test.left, 'length'):
+            if found is not None or n.orelse or not _raises_decoding_error(n.body):
+                raise TieBroken('%s._from_data: unexpected `self.length` guard' % cls)
+            prev = fn.body[i - 1] if i else None
+            if not (isinstance(prev, ast.Expr) and isinstance(prev.value, ast.Call)
+                    and isinstance(prev.value.func, ast.Attribute) and prev.value.func.attr == '_from_data'):
+                raise TieBroken('%s._from_data: the `self.length` guard does not follow the base _from_data call' % cls)
+            found = _int(n.test.comparators[0])
+        elif isinstance(n, ast.If) and any(_self_attr(x, 'length') for x in ast.walk(n.test)):
+            raise TieBroken('%s._from_data: `self.length` test outside the grammar' % cls)
+    return found
+
+
+def _area_len_form(tree):
+    """CommonInfoArea._from_data: what stands between `self.length = data[1] * 8` and the checksum test"""
+    fn = _func(tree, '_from_data', 'CommonInfoArea')
+    idx = None
+    for i, n in enumerate(fn.body):
+        if isinstance(n, ast.Assign) and len(n.targets) == 1 and _self_attr(n.targets[0], 'length'):
+            v = n.value
+            if not (isinstance(v, ast.BinOp) and isinstance(v.op, ast.Mult) and _data_at(v.left, 1) and _int(v.right) == 8):
+                raise TieBroken('CommonInfoArea.length is not data[1] * 8')
+            idx = i
+    if idx is None:
+        raise TieBroken('CommonInfoArea._from_data: `self.length = data[1] * 8` not found')
+    rest = fn.body[idx + 1:]
+
+    def is_sum_test(n):
+        # if sum(data[:self.length]) % 256 != 0: raise DecodingError
+        if not (isinstance(n, ast.If) and _cmp(n.test, ast.NotEq) and not n.orelse and _raises_decoding_error(n.body)):
+            return False
+        l = n.test.left
+        if not (isinstance(l, ast.BinOp) and isinstance(l.op, ast.Mod) and _int(l.right) == 256 and _int(n.test.comparators[0]) == 0):
+            return False
+        c = l.left
+        if not (isinstance(c, ast.Call) and _is_name(c.func, 'sum') and len(c.args) == 1):
+            return False
+        sl = c.args[0]
+        return isinstance(sl, ast.Subscript) and _is_name(sl.value, 'data') and isinstance(sl.slice, ast.Slice) \
+            and sl.slice.lower is None and _self_attr(sl.slice.upper, 'length')
+    if len(rest) == 1 and is_sum_test(rest[0]):
+        return 'lax'
+    if len(rest) == 2 and is_sum_test(rest[1]):
+        g = rest[0]
+        if isinstance(g, ast.If) and not g.orelse and _raises_decoding_error(g.body) \
+                and isinstance(g.test, ast.BoolOp) and isinstance(g.test.op, ast.Or) and len(g.test.values) == 2:
+            a, b = g.test.values
+            if _cmp(a, ast.Eq) and _self_attr(a.left, 'length') and _int(a.comparators[0]) == 0 \
+                    and _cmp(b, ast.Lt) and _len_data(b.left) and _self_attr(b.comparators[0], 'length'):
+                return 'checked'
+    raise TieBroken('CommonInfoArea._from_data: the statements behind `self.length = data[1] * 8` are neither the '
+                    'shipped checksum test nor `if self.length == 0 or len(data) < self.length: raise` + checksum test')
+
+
+def _dev_len_form(tree):
+    """Fru._read_fru_area: `count = data[1] * 8` [+ `if count == 0: raise DecodingError`] + return read"""
+    fn = _func(tree, '_read_fru_area', 'Fru')
+    body = [n for n in fn.body if not (isinstance(n, ast.Expr) and isinstance(n.value, ast.Constant))]
+    idx = None
+    for i, n in enumerate(body):
+        if isinstance(n, ast.Assign) and len(n.targets) == 1 and _is_name(n.targets[0], 'count'):
+            v = n.value
+            if not (isinstance(v, ast.BinOp) and isinstance(v.op, ast.Mult) and _data_at(v.left, 1) and _int(v.right) == 8):
+                raise TieBroken('_read_fru_area: count is not data[1] * 8')
+            idx = i
+    if idx is None:
+        raise TieBroken('_read_fru_area: `count = data[1] * 8` not found')
+    rest = body[idx + 1:]
+    if len(rest) == 1 and isinstance(rest[0], ast.Return):
+        return 'lax'
+    if len(rest) == 2 and isinstance(rest[1], ast.Return):
+        g = rest[0]
+        if isinstance(g, ast.If) and not g.orelse and _raises_decoding_error(g.body) and _cmp(g.test, ast.Eq) \
+                and _is_name(g.test.left, 'count') and _int(g.test.comparators[0]) == 0:
+            return 'checked'
+    raise TieBroken('_read_fru_area: the statements behind `count = data[1] * 8` are neither `return read` nor '
+                    '`if count == 0: raise DecodingError` + `return read`')
+
+
 def extract():
     import pyipmi.utils as utils
     import pyipmi.fields as fields
@@ -216,6 +386,18 @@ def extract():
     t_fru = _parse('pyipmi/fru.py')
     base, chars, form = _six(t_fields)
     tshift, tmask, lmask, bcd_conv = _type_length(t_fields)
+    dform, dmin_data, dmin_len = _dispatch(t_fru)
+    picmg_len = _own_len_guard(t_fru, 'FruPicmgRecord')
+    power_len = _own_len_guard(t_fru, 'FruPicmgPowerModuleCapabilityRecord')
+    mfg = getattr(fru.FruPicmgRecord, 'PICMG_MANUFACTURER_ID', None)
+    if dform == 'mfg-id':
+        if not isinstance(mfg, int) or isinstance(mfg, bool) or picmg_len is None or power_len is None:
+            raise TieBroken('create_from_record_id compares the manufacturer id but PICMG_MANUFACTURER_ID or the '
+                            '`self.length` guards of the PICMG record classes are missing')
+    elif picmg_len is not None or power_len is not None:
+        raise TieBroken('a PICMG record class tests self.length but create_from_record_id dispatches on the type only')
+    else:
+        mfg = None
     consts = {
         'bcdMap': [ord(c) for c in m],
         'bcd': _bcd(t_utils),
@@ -233,6 +415,11 @@ def extract():
         'minRecord': _min_len(t_fru, 'FruDataMultiRecord'),
         'minPicmg': _min_len(t_fru, 'FruPicmgRecord'),
         'minPower': _min_len(t_fru, 'FruPicmgPowerModuleCapabilityRecord'),
+        'dispatchForm': dform,
+        'picmgMfgId': mfg, 'dispatchMinData': dmin_data, 'dispatchMinLen': dmin_len,
+        'picmgMinLen': picmg_len, 'powerMinLen': power_len,
+        'areaLenForm': _area_len_form(t_fru),
+        'devLenForm': _dev_len_form(t_fru),
     }
     return consts
 
@@ -240,6 +427,9 @@ def extract():
 def render(c):
     def term(t):
         return '(%d, 0x%x, %d)' % t if t else '(0, 0, 0)'
+
+    def opt(v, fmt='%d'):
+        return 'none' if v is None else 'some ' + fmt % v
     lines = [
         '/- GENERATED by harness/translate/fru.py from pyipmi/utils.py, fields.py, fru.py. Do not edit. -/',
         'namespace PyIpmi.Gen.FruTables',
@@ -272,6 +462,15 @@ def render(c):
         'def minRecord : Nat := %d' % c['minRecord'],
         'def minPicmg : Nat := %d' % c['minPicmg'],
         'def minPower : Nat := %d' % c['minPower'],
+        '',
+        '/-- create_from_record_id `... and len(data) >= N and data[2] >= M and (data[5] | data[6] << 8 | data[7] << 16)',
+        '== PICMG_MANUFACTURER_ID`; `if self.length < K: raise` of FruPicmgRecord / ...PowerModuleCapabilityRecord',
+        '(none: this tree dispatches on the record type only and has no such guard) -/',
+        'def picmgMfgId : Option Nat := %s' % opt(c['picmgMfgId'], '0x%x'),
+        'def dispatchMinData : Option Nat := %s' % opt(c['dispatchMinData']),
+        'def dispatchMinLen : Option Nat := %s' % opt(c['dispatchMinLen']),
+        'def picmgMinLen : Option Nat := %s' % opt(c['picmgMinLen']),
+        'def powerMinLen : Option Nat := %s' % opt(c['powerMinLen']),
         '',
         'end PyIpmi.Gen.FruTables',
         '',
